@@ -92,6 +92,29 @@ def _gen_shape2d(rng):
     return [rng.randrange(1, 7), rng.randrange(1, 7)]
 
 
+def _gen_post(rng):
+    """The object that is written is often not fresh from a constructor: it went through representation changes and
+    arithmetic first (its storage state is part of the history the FITS surface meets)."""
+    if rng.random() < 0.55:
+        return []
+    ops = []
+    for _ in range(rng.randrange(1, 4)):
+        r = rng.random()
+        if r < 0.3:
+            ops.append(["native"])
+        elif r < 0.45:
+            ops.append(["slim"])
+        elif r < 0.65:
+            ops.append(["add", rng.choice([1.0, -2.5, 0.125])])
+        elif r < 0.8:
+            ops.append(["rsub", rng.choice([10.0, 0.5])])
+        elif r < 0.9:
+            ops.append(["mul", rng.choice([2.0, -0.5])])
+        else:
+            ops.append(["neg"])
+    return ops
+
+
 def gen_recipe(rng_world, rng_values, knobs):
     n = rng_world.randrange(3, 7)
     kinds = knobs["kinds"]
@@ -111,6 +134,8 @@ def gen_recipe(rng_world, rng_values, knobs):
                     "values": _gen_values(rng_values, shape[0] * shape[1], style),
                     "pixel_scales": _gen_scales(rng_world),
                     "mask": _gen_bits(rng_world, shape[0] * shape[1], 0.4) if masked else None,
+                    "store_native": rng_world.random() < 0.25,
+                    "post": _gen_post(rng_world),
                 }
             )
         elif kind == "mask2d":
@@ -146,6 +171,8 @@ def gen_recipe(rng_world, rng_values, knobs):
                     "values": _gen_values(rng_values, nn, style),
                     "pixel_scales": [_gen_scales(rng_world, False)[0]],
                     "mask": _gen_bits(rng_world, nn, 0.4) if masked else None,
+                    "store_native": rng_world.random() < 0.25,
+                    "post": _gen_post(rng_world),
                 }
             )
         elif kind == "mask1d":
@@ -197,12 +224,12 @@ class Obj:
             vals = np.array([prng.unhex(v) for v in spec["values"]], dtype=np.float64).reshape(shape)
             if k == "array2d" and spec.get("mask"):
                 bits = np.array([c == "1" for c in spec["mask"]]).reshape(shape)
-                self.obj = aa.Array2D(values=vals.copy(), mask=aa.Mask2D(mask=bits.copy(), pixel_scales=ps))
-                self.expected = np.where(bits, 0.0, vals)
+                self.obj = aa.Array2D(values=vals.copy(), mask=aa.Mask2D(mask=bits.copy(), pixel_scales=ps), store_native=bool(spec.get("store_native")))
                 self.bits = bits
+                self._post(spec, vals, bits)
             elif k == "array2d":
-                self.obj = aa.Array2D.no_mask(values=vals.copy(), pixel_scales=ps)
-                self.expected = vals
+                self.obj = aa.Array2D(values=vals.copy(), mask=aa.Mask2D.all_false(shape_native=shape, pixel_scales=ps), store_native=bool(spec.get("store_native")))
+                self._post(spec, vals, None)
             else:
                 self.obj = aa.Kernel2D.no_mask(values=vals.copy(), pixel_scales=ps, normalize=False)
                 self.expected = vals
@@ -216,11 +243,11 @@ class Obj:
             vals = np.array([prng.unhex(v) for v in spec["values"]], dtype=np.float64)
             if spec.get("mask"):
                 bits = np.array([c == "1" for c in spec["mask"]])
-                self.obj = aa.Array1D(values=vals.copy(), mask=aa.Mask1D(mask=bits.copy(), pixel_scales=ps))
-                self.expected = np.where(bits, 0.0, vals)
+                self.obj = aa.Array1D(values=vals.copy(), mask=aa.Mask1D(mask=bits.copy(), pixel_scales=ps), store_native=bool(spec.get("store_native")))
+                self._post(spec, vals, bits)
             else:
-                self.obj = aa.Array1D.no_mask(values=vals.copy(), pixel_scales=ps)
-                self.expected = vals
+                self.obj = aa.Array1D(values=vals.copy(), mask=aa.Mask1D(mask=np.zeros(len(vals), dtype=bool), pixel_scales=ps), store_native=bool(spec.get("store_native")))
+                self._post(spec, vals, None)
         elif k == "mask1d":
             bits = np.array([c == "1" for c in spec["bits"]])
             self.obj = aa.Mask1D(mask=bits.copy(), pixel_scales=ps)
@@ -242,6 +269,29 @@ class Obj:
         else:
             raise ValueError(k)
         self.aniso = len(ps) == 2 and ps[0] != ps[1]
+
+    def _post(self, spec, vals, bits):
+        """Apply the recipe's representation changes / arithmetic; the model follows with plain numpy on the unmasked values."""
+        exp = np.array(vals, dtype=np.float64)
+        for op in spec.get("post") or []:
+            name = op[0]
+            if name == "native":
+                self.obj = self.obj.native
+            elif name == "slim":
+                self.obj = self.obj.slim
+            elif name == "add":
+                self.obj = self.obj + op[1]
+                exp = exp + op[1]
+            elif name == "rsub":
+                self.obj = op[1] - self.obj
+                exp = op[1] - exp
+            elif name == "mul":
+                self.obj = self.obj * op[1]
+                exp = exp * op[1]
+            elif name == "neg":
+                self.obj = -self.obj
+                exp = -exp
+        self.expected = exp if bits is None else np.where(bits, 0.0, exp)
 
 
 # ---------------------------------------------------------------------------------------------------
@@ -1085,6 +1135,23 @@ class FitsSim:
             self.probe("roundtrip_1xN_or_Nx1")
         if expected.ndim == 2 and expected.shape[0] != expected.shape[1]:
             self.probe("roundtrip_non_square")
+        # "via the header, the same pixel scale": the header that from_fits attaches to the object it returns
+        hdr = getattr(getattr(res, "header", None), "header_sci_obj", None)
+        if hdr is not None and st["cls"] in ("Array2D", "Kernel2D", "Array1D", "Mask2D", "Mask1D"):
+            self.stats["checked"] += 1
+            try:
+                if "PIXSCALE" in hdr:
+                    hps = (float(hdr["PIXSCALE"]),) * len(st["ps"])
+                else:
+                    hps = (float(hdr["PIXSCALEY"]), float(hdr["PIXSCALEX"]))
+                hshape = tuple(int(hdr[f"NAXIS{i}"]) for i in range(int(hdr["NAXIS"]), 0, -1))
+            except Exception as e:  # noqa: BLE001
+                hps, hshape = "missing: " + type(e).__name__, None
+            hc = dict(cond, route="file.header")
+            if hps != tuple(st["ps"]):
+                self.report("pixel_scale_header_mismatch", reader, "header pixel scale", hc, repr(tuple(st["ps"])), repr(hps), step)
+            if hshape is not None and hshape != tuple(expected.shape):
+                self.report("read_mismatch", reader, "header shape", hc, repr(tuple(expected.shape)), repr(hshape), step)
         # "via the header, the same pixel scale": the stored file's primary HDU through the HDU route
         if st["cls"] == reader or (reader == "Array2D" and st["cls"] in ("Kernel2D",)):
             self._header_scale_check(reader, arg, st, cond, step)
